@@ -107,16 +107,16 @@ def main(tier, seed):
         assumptions=["finite-difference identities are judged at relative 1e-6 (Richardson-extrapolated central differences; "
                      "truncation error probes: 1e-12)"],
         technique="bounded exhaustive enumeration; identities checked by extrapolated finite differences")
-    ant = [(a, b, c, "antoine") for a in (6.2, 7.2, 8.1) for b in (-900.0, -1733.0, -2600.0) for c in (-60.0, -39.5, 15.0)]
-    fro = [(a, b, c, "frost") for a in (14.0, 16.0, 18.5) for b in (-2500.0, -3800.0, -5200.0) for c in (-3.0e5, -1.0e5, 5.0e4)]
+    ant = [(a, b, c, "antoine") for a in (6.2, 7.2, 8.1) for b in (-900.0, -1733.0, -2600.0) for c in (-60.0, -39.5, 0.0, 15.0)]
+    fro = [(a, b, c, "frost") for a in (14.0, 16.0, 18.5) for b in (-2500.0, -3800.0, -5200.0) for c in (-3.0e5, -1.0e5, 0.0, 5.0e4)]
     temps = core.lat([200.0, 220.0, 240.0, 260.0, 280.0, 300.0, 320.0, 340.0, 360.0, 380.0, 400.0, 420.0, 440.0, 460.0, 480.0, 500.0], seed)
     if q:
         temps = temps[::2]
     comps = list(U.BUILTIN_COMPONENTS) + ["SA", "SC"] + ant + fro
     comps = [c if not (isinstance(c, str) and c.startswith("S")) else U._SYN_COMPONENTS[c]["vp"] for c in comps]
     core.run_space(rep, core.Space("vapour_pressure", {"component": comps, "T": temps}), judge_vp)
-    cps = [(a, b, c, d) for a in (-20.0, 32.2, 180.0) for b in (-0.3, 1.9e-3, 0.52) for c in (-1.1e-4, 1.05e-5, 1.7e-4)
-           for d in (-6.1e-8, -3.6e-9, 2.9e-8)]
+    cps = [(a, b, c, d) for a in (-20.0, 32.2, 180.0) for b in (-0.3, 1.9e-3, 0.52) for c in (-1.1e-4, 0.0, 1.05e-5, 1.7e-4)
+           for d in (-6.1e-8, -3.6e-9, 0.0, 2.9e-8)]
     triples = [(373.15, 333.15, 293.15), (300.0, 301.0, 299.0), (250.0, 480.0, 120.0)]
     if not q:
         triples += [(400.0, 273.15, 350.0), (120.0, 200.0, 500.0)]
